@@ -194,6 +194,20 @@ fn cases(thorough: bool) -> Vec<Case> {
             }
         }
     }
+    // element-wise over several strings (every ordered pair / a triple of the string table, a non-string member in between)
+    for p in ["a", "a.c", "[a-c]+", "\\d+", "x"] {
+        for r in ["-", "<>"] {
+            for (k1, s1) in strs.iter().enumerate() {
+                for (k2, s2) in strs.iter().enumerate() {
+                    if (k1 + 2 * k2) % 3 != 0 {
+                        continue;
+                    }
+                    out.push(Case { fname: "regex_replace", args: vec![Arg::Q(false, vec![key("l"), Part::All]), Arg::Lit(s(p)), Arg::Lit(s(r))], lets: vec![], doc: m(vec![("l", l(vec![s(s1), s(s2)]))]), form: "regex_replace-elementwise" });
+                }
+            }
+            out.push(Case { fname: "regex_replace", args: vec![Arg::Q(false, vec![key("l"), Part::All]), Arg::Lit(s(p)), Arg::Lit(s(r))], lets: vec![], doc: m(vec![("l", l(vec![s("abc"), i(1), s("a1"), s("cab12ab")]))]), form: "regex_replace-elementwise" });
+        }
+    }
     out.push(Case { fname: "regex_replace", args: vec![qa(), Arg::Q(false, vec![key("l"), Part::Filter(vec![vec![un(vec![key("zz")], UnOp::Exists, false)]])]), Arg::Lit(s("x"))], lets: vec![], doc: m(vec![("a", s("abc")), ("l", l(vec![m(vec![("y", i(1))])]))]), form: "regex_replace-empty-selection-arg" });
     out.push(Case { fname: "regex_replace", args: vec![qa(), Arg::Lit(s("(")), Arg::Lit(s("x"))], lets: vec![], doc: m(vec![("a", s("abc"))]), form: "regex_replace-bad-regex" });
     out
